@@ -5,7 +5,10 @@
 EXTENDS Integers, Sequences, FiniteSets, TLC, Json
 
 CONSTANTS MaxParams
-Kinds == {"req", "opt", "var"}
+\* a declared parameter has two independent marks - "has a default" and "variadic"; varopt carries both
+Kinds == {"req", "opt", "var", "varopt"}
+HasDef(p) == p.kind \in {"opt", "varopt"}
+IsVar(p) == p.kind \in {"var", "varopt"}
 \* names: three plain ones, a non-ASCII letter (valid), and two invalid identifiers.
 \* "uni" stands for the one-letter name U+00E9 (the harness substitutes it): TLC's on-disk state queue
 \* does not preserve non-ASCII characters in strings (measured: "\u00e9" came back as "\uffe9").
@@ -19,9 +22,9 @@ ParamLists == UNION {[1..n -> Param] : n \in 0..MaxParams}
 ValidSig(ps) ==
   /\ \A i \in DOMAIN ps : ValidName(ps[i].name)
   /\ \A i, j \in DOMAIN ps : i # j => ps[i].name # ps[j].name
-  /\ \A i, j \in DOMAIN ps : (i < j /\ ps[i].kind = "opt") => ps[j].kind = "opt"   \* required (and variadic) never after optional
-  /\ \A i \in DOMAIN ps : ps[i].kind = "var" => i = Len(ps)                        \* variadic only last (hence at most one)
-  /\ \A i, j \in DOMAIN ps : ~(ps[i].kind = "var" /\ ps[j].kind = "opt")           \* variadic not mixed with optional
+  /\ \A i, j \in DOMAIN ps : (i < j /\ HasDef(ps[i])) => HasDef(ps[j])            \* required (and variadic) never after optional
+  /\ \A i \in DOMAIN ps : IsVar(ps[i]) => i = Len(ps)                             \* variadic only last (hence at most one)
+  /\ \A i, j \in DOMAIN ps : ~(IsVar(ps[i]) /\ HasDef(ps[j]))                      \* variadic not mixed with optional - nor itself given a default
 
 (* scanning machine *)
 VARIABLES ps, i, optional, variable, seen, verdict
@@ -35,11 +38,11 @@ Reject == verdict' = "invalid" /\ UNCHANGED <<ps, i, optional, variable, seen>>
 Scan == /\ verdict = "scanning" /\ i <= Len(ps)
         /\ LET p == ps[i] IN
              IF ~ValidName(p.name) \/ p.name \in seen THEN Reject
-             ELSE IF p.kind # "opt" /\ optional THEN Reject
-             ELSE IF p.kind = "var" /\ (optional \/ variable \/ i # Len(ps)) THEN Reject
+             ELSE IF ~HasDef(p) /\ optional THEN Reject
+             ELSE IF IsVar(p) /\ (optional \/ HasDef(p) \/ variable \/ i # Len(ps)) THEN Reject
              ELSE /\ seen' = seen \cup {p.name}
-                  /\ optional' = (optional \/ p.kind = "opt")
-                  /\ variable' = (variable \/ p.kind = "var")
+                  /\ optional' = (optional \/ HasDef(p))
+                  /\ variable' = (variable \/ IsVar(p))
                   /\ i' = i + 1 /\ UNCHANGED <<ps, verdict>>
 
 Done == /\ verdict = "scanning" /\ i > Len(ps)
